@@ -2,6 +2,7 @@ package compiler
 
 import (
 	"fmt"
+	"strings"
 
 	"github.com/grafana/cog/internal/ast"
 	"github.com/grafana/cog/internal/tools"
@@ -73,7 +74,7 @@ func (pass *PrefixEnumValues) enumMemberNameFromValue(member ast.EnumValue) stri
 		return tools.UpperCamelCase(member.Name)
 	}
 
-	if member.Name[0] == '-' {
+	if strings.HasPrefix(member.Name, "-") {
 		return tools.UpperCamelCase(fmt.Sprintf("negative%s", member.Name[1:]))
 	}
 
